@@ -131,10 +131,13 @@ class Cmp:
     pass_op: if given, the comparison that must hold on the passing edge, normalised as
     'A <op> B' (e.g. 'Eq', 'Gt')."""
 
-    def __init__(self, A, B, pass_op=None, name=None):
+    def __init__(self, A, B, pass_op=None, name=None, local_only=False):
         self.A = A if isinstance(A, (list, tuple)) else [A]
         self.B = B if isinstance(B, (list, tuple)) else [B]
         self.pass_op = pass_op
+        # local_only: the comparison must be made in this function; a callee that makes a comparison of
+        # the same shape (about ITS OWN argument) does not count (no helper following)
+        self.local_only = local_only
         self.name = name or "cmp(%s ; %s)" % (self.A, self.B)
 
     def call_pats(self):
@@ -597,6 +600,11 @@ class Guards:
         return [(b, p, i) for b, (p, i) in sorted(guards.items())]
 
     def via_callee(self, e, spec):
+        if getattr(spec, "local_only", False):
+            return False
+        return self._via_callee(e, spec)
+
+    def _via_callee(self, e, spec):
         """Helper following: the branch honours the result of a call to a workspace-local
         function inside which (bounded depth) every accepting path passes a guard for spec,
         with the callee's parameters mapped back to this caller's argument slices."""
